@@ -68,6 +68,8 @@ pub struct FaultPlan {
     pub only_locks: bool,
     /// only operations on this path (raw file name) are failing candidates ("" = any)
     pub only_path: String,
+    /// only operations on a path with this suffix (e.g. ".del")
+    pub only_suffix: String,
     /// only operations of threads whose role starts with this are failing candidates ("" = any)
     pub only_role: String,
 }
@@ -239,6 +241,9 @@ impl SimDir {
             return false;
         }
         if !f.only_path.is_empty() && path.to_string_lossy() != f.only_path.as_str() {
+            return false;
+        }
+        if !f.only_suffix.is_empty() && !path.to_string_lossy().ends_with(f.only_suffix.as_str()) {
             return false;
         }
         if !f.only_role.is_empty() && !role().starts_with(f.only_role.as_str()) {
